@@ -34,6 +34,13 @@ var (
 	c10Den = []string{world.Denom, "utwo"}
 )
 
+// c10Tok holds the addresses of the two ERC-20 precompiles once the world is built; c10E is a holder of utwo only
+// (no gas coin, sequence 0, no code): go-ethereum would call such an account empty, the bank does not.
+var (
+	c10Tok [2]common.Address
+	c10E   = common.HexToAddress("0x00000000000000000000000000000000000e000e")
+)
+
 var transferTopic = common.HexToHash("0xddf252ad1be2c89b69c2b068fc378daa952ba7f163c4a11628f55a4df523b3ef")
 var approvalTopic = common.HexToHash("0x8c5be1e5ebec7d5bd14f71427d1e84f3dd0314c0f7b2291e5b200ac8c7c3b925")
 
@@ -63,6 +70,10 @@ func c10Addr(n string) common.Address {
 		return c10D
 	case "F":
 		return c10F
+	case "T0", "T1": // the token contracts' own addresses (set by c10Setup)
+		return c10Tok[n[1]-'0']
+	case "E":
+		return c10E
 	case "0", "":
 		return zeroA
 	}
@@ -151,6 +162,7 @@ func c10Setup() *c10World {
 		Extra: []world.ExtraAccount{
 			{Account: authtypes.NewBaseAccount(c10A.Bytes(), nil, 0, 1), Coins: coins(3)},
 			{Account: authtypes.NewBaseAccount(c10B.Bytes(), nil, 0, 1), Coins: coins(1)},
+			{Account: authtypes.NewBaseAccount(c10E.Bytes(), nil, 0, 0), Coins: sdk.NewCoins(sdk.NewCoin("utwo", sdkmath.NewInt(2)))},
 		},
 		Contracts: []world.Contract{{Addr: c10C, Code: asm.Forwarder(false)}, {Addr: c10D, Code: asm.Multicall(), Coins: coins(2)}},
 	})
@@ -162,8 +174,9 @@ func c10Setup() *c10World {
 			panic(err)
 		}
 		cw.tokens[i] = addr
+		c10Tok[i] = addr
 	}
-	cw.tracked = []common.Address{c10A, c10B, c10C, c10D, c10F, zeroA, world.ModuleAddr(cpctypes.ModuleName)}
+	cw.tracked = []common.Address{c10A, c10B, c10C, c10D, c10E, c10F, zeroA, world.ModuleAddr(cpctypes.ModuleName), cw.tokens[0], cw.tokens[1]}
 	return cw
 }
 
@@ -429,12 +442,12 @@ func c10Alphabet(full bool) []c10Op {
 	var ops []c10Op
 	callers := []string{"A", "B", "C-call", "C-deleg"}
 	amts := []string{"0", "1", "2", "4", "max"}
-	tos := []string{"A", "B", "C", "0", "F"}
+	tos := []string{"A", "B", "C", "0", "F", "E", "T0", "T1"}
 	froms := []string{"A", "B", "C", "0"}
 	if !full {
 		callers = []string{"A", "B", "C-call"}
 		amts = []string{"1", "2", "max"}
-		tos = []string{"A", "B", "0"}
+		tos = []string{"A", "B", "0", "E", "T1"}
 		froms = []string{"A", "B"}
 	}
 	for t := 0; t < 2; t++ {
@@ -833,6 +846,6 @@ func runC10(replay string) int {
 	if _, ok := run.Coverage["exhaustive"]; !ok {
 		run.Coverage["exhaustive"] = true
 	}
-	run.Coverage["rule"] = "BFS over branch states (CacheContext tree) of a world with two ERC-20 precompiles (wei, utwo), holders A=3 B=1, forwarder contract C; alphabets: full = 2 tokens × callers {A,B,C by CALL,C by DELEGATECALL} × transfer/transferFrom/approve/burn/burnFrom × addresses {A,B,C,0,fee collector} × amounts {0,1,2,4,2^256−1} + native bank sends; reduced = 3 callers × amounts {1,2,max} × addresses {A,B,0}; tiny = approve(1|max)/transferFrom/burnFrom/transfer between A and B on both tokens. Searches: " + strings.Join(desc, "; ") + ". Batch pass: multicall contract D (2 of each token) makes 2 (thorough: also 3) precompile calls inside one message, after prefixes {none, A approves D 2 on T0, A approves D max on T1}: all ordered pairs over an 18-call alphabet; the log list read at the end of the message must hold exactly one matching log per successful call, in order. Sharded on the first operation; every view of both tokens and the bank keeper is compared with the reference in every distinct state. states = distinct canonical state keys"
+	run.Coverage["rule"] = "BFS over branch states (CacheContext tree) of a world with two ERC-20 precompiles (wei, utwo), holders A=3 B=1, forwarder contract C; alphabets: full = 2 tokens × callers {A,B,C by CALL,C by DELEGATECALL} × transfer/transferFrom/approve/burn/burnFrom × addresses {A,B,C,0,fee collector,E = holder of utwo only with sequence 0,the token contracts themselves} × amounts {0,1,2,4,2^256−1} + native bank sends; reduced = 3 callers × amounts {1,2,max} × addresses {A,B,0}; tiny = approve(1|max)/transferFrom/burnFrom/transfer between A and B on both tokens. Searches: " + strings.Join(desc, "; ") + ". Batch pass: multicall contract D (2 of each token) makes 2 (thorough: also 3) precompile calls inside one message, after prefixes {none, A approves D 2 on T0, A approves D max on T1}: all ordered pairs over an 18-call alphabet; the log list read at the end of the message must hold exactly one matching log per successful call, in order. Sharded on the first operation; every view of both tokens and the bank keeper is compared with the reference in every distinct state. states = distinct canonical state keys"
 	return run.Finish()
 }
